@@ -34,6 +34,8 @@ pub trait Family {
     fn rows(w: &mut Self::W) -> Vec<((usize, u64), Vec<Option<u64>>)>;
     fn res(w: &Self::W) -> Vec<u64>;
     fn res_set(w: &mut Self::W, p: usize, v: u64) -> bool;
+    /// `view_resources` with the described views (`<pos><r|m>,…`); mutable ones optionally written.
+    fn res_view(w: &mut Self::W, desc: &str, write: Option<u64>) -> Option<Vec<String>>;
 
     fn remove(w: &mut Self::W, id: entity::Identifier);
     fn clear(w: &mut Self::W);
